@@ -196,3 +196,73 @@ func ZZ_C16_pipeline_quick() {
 func ZZ_C16_pipeline() {
 	zzPipeline(zz.Choose(4), zz.Choose(3), zz.Choose(2), 4)
 }
+
+// ZZ_C16_go_call_shapes: every shape of go call starts its callee on a new
+// goroutine with exactly the supplied arguments: script functions of 0..6
+// parameters (the direct-call fast path ends at 4), variadic script and Go
+// functions with and without a spread argument, function literals.  The
+// callee sends on an unbuffered channel the caller only reads afterwards, so a
+// callee run synchronously deadlocks.
+func ZZ_C16_go_call_shapes() {
+	a, b, c := zz.Int64(), zz.Int64(), zz.Int64()
+	e := zzChanEnv(a, b, c)
+	e.Define("gosum", func(out chan int64, xs ...int64) {
+		s := int64(len(xs)) * 1000000
+		for _, x := range xs {
+			s += x
+		}
+		out <- s
+	})
+	e.Define("gofixed", func(out chan int64, x, y int64) { out <- x - y })
+	shapes := []struct{ name, src string }{
+		{"script-0", "f = func() { out <- 7 }\ngo f()"},
+		{"script-1", "f = func(x) { out <- x }\ngo f(A)"},
+		{"script-2", "f = func(x, y) { out <- x - y }\ngo f(A, B)"},
+		{"script-3", "f = func(x, y, z) { out <- x - y + z }\ngo f(A, B, C)"},
+		{"script-4", "f = func(x, y, z, u) { out <- x - y + z - u }\ngo f(A, B, C, 1)"},
+		{"script-5", "f = func(x, y, z, u, v) { out <- x - y + z - u + v }\ngo f(A, B, C, 1, 2)"},
+		{"script-6", "f = func(x, y, z, u, v, w) { out <- x - y + z - u + v - w }\ngo f(A, B, C, 1, 2, 3)"},
+		{"script-variadic", "f = func(xs...) { out <- len(xs) * 1000000 + xs[0] - xs[1] }\ngo f(A, B)"},
+		{"script-variadic-spread", "f = func(xs...) { out <- len(xs) * 1000000 + xs[0] - xs[1] }\ngo f([A, B]...)"},
+		{"script-spread-fixed", "f = func(x, y) { out <- x - y }\ngo f([A, B]...)"},
+		{"literal", "go func(x, y) { out <- x - y }(A, B)"},
+		{"literal-0", "go func() { out <- A - B }()"},
+		{"go-variadic", "go gosum(out, A, B)"},
+		{"go-variadic-spread", "go gosum(out, [A, B]...)"},
+		{"go-variadic-empty", "go gosum(out)"},
+		{"go-fixed", "go gofixed(out, A, B)"},
+		{"module-member", "module m { f = func(x, y) { out <- x - y } }\ngo m.f(A, B)"},
+	}
+	s := shapes[zz.Choose(len(shapes))]
+	var want int64
+	switch s.name {
+	case "script-0":
+		want = 7
+	case "script-1":
+		want = a
+	case "script-2", "script-spread-fixed", "literal", "literal-0", "go-fixed", "module-member":
+		want = a - b
+	case "script-3":
+		want = a - b + c
+	case "script-4":
+		want = a - b + c - 1
+	case "script-5":
+		want = a - b + c - 1 + 2
+	case "script-6":
+		want = a - b + c - 1 + 2 - 3
+	case "script-variadic", "script-variadic-spread":
+		want = 2000000 + a - b
+	case "go-variadic", "go-variadic-spread":
+		want = 2000000 + a + b
+	case "go-variadic-empty":
+		want = 0
+	}
+	zz.DeadlockIsViolation("terminates.C16.go/" + s.name)
+	r, err := Execute(e, nil, "out = make(chan int64)\n"+s.src+"\n<-out")
+	zz.Drain()
+	ri, ok := r.(int64)
+	zz.Assert(err == nil && ok, "C16.go-shape/runs-concurrently-and-delivers/"+s.name)
+	if err == nil && ok {
+		zz.Assert(ri == want, "C16.go-shape/exactly-the-supplied-arguments/"+s.name)
+	}
+}
